@@ -84,7 +84,7 @@ PROPS.update({
         level_note=COMMON_NOTE,
         ),
     "C04": dict(
-        streams=[dict(cmd="C04")],
+        streams=[dict(cmd="C04"), dict(cmd="C04B")],
         technique="Lean 4 theorems (finish/drop emit exactly the forced draw of the final state, for every limiter state) + differential correspondence",
         level_text="For every bar state, limiter state and finish kind the finishing call is proved to paint exactly the final frame without consulting the limiter; drop is "
                    "proved equal to finish_using_style or a no-op; final frames of real histories are compared with the model and judged by the final-rendering oracle.",
